@@ -34,8 +34,15 @@ def run_shard(spec, acc):
             acc.count('stopped_on_time_budget')
             break
         cfg = sesswl.gen_cfg(rng, alpha_kinds=ALPHAS, universe_kinds=('static', 'dynamic'),
-                             max_days=60 if spec['tier'] == 'quick' else 250)
+                             max_days=60 if spec['tier'] == 'quick' else 250, long_eom=True)
         tr, _ = sesswl.run_case(cfg, acc, PROP)
+        if i % 5 == 2:
+            # the same period again in the same process (other alpha model, no burn-in): schedules are values, not state
+            cfg2 = dict(cfg, burn_in=None, alpha={'kind': 'fixed', 'weights': {a: 1.0 for a in sorted(('EQ:' + s_) for s_ in cfg['market']['assets'])[:2]}},
+                        universe={'kind': 'static', 'assets': ['EQ:' + s_ for s_ in cfg['market']['assets']]})
+            if 'late' not in cfg['market']:
+                sesswl.run_case(cfg2, acc, PROP)
+                acc.count('C14:repeat_period_sessions')
         acc.evaluations += 1
         acc.count('sessions:%s' % cfg['rebalance'])
         acc.count('sessions:alpha:%s' % cfg['alpha']['kind'])
